@@ -844,7 +844,7 @@ const SPEC_SETS: &[(&[&str], &[&str])] = &[
     (&["refs/x/*:refs/x/*", "^refs/x/a"], &[]),
 ];
 
-fn main() {
+pub fn main() {
     hermetic_env();
     let mut ck = Check::new("C30", "exploration");
     ck.rule("Bare server repositories decoded from a byte tape: 0..5 commits (roots, linear, merges), 0..4 annotated tag objects (of commits, of a blob, nested), 0..30 refs under refs/{heads,tags,remotes/o,notes,pull/1,x} and one-level refs/<x> that are direct (commit/blob/tag object) or symbolic (to live refs, to other symrefs, dangling), optional pack-refs, HEAD attached / unborn (empty repo or with other refs, also through a dangling symref) / detached at a commit or tag object / symbolic to a symref, an annotated tag or a ref outside refs/heads; names over plain, punctuation and (16% of cases) multi-byte, non-UTF-8 and trailing-Unicode-white-space alphabets. Each is served by `git upload-pack` through gitoxide's file transport under protocol.version 0, 1 and 2. Non-trivial: the repository has an annotated tag and a live symbolic ref besides HEAD, or HEAD is unborn. Distinct by hash of the decoded server description and query parameters.");
@@ -853,7 +853,7 @@ fn main() {
     ck.assume("ref-prefixes sent by Connection::ref_map() are taken from gix_refspec::RefSpecRef::expand_prefixes of the same specs (their derivation belongs to C32); expected v2 output is the truth filtered by those prefixes");
 
     // gix level: Remote::connect(Fetch).ref_map()
-    ck.sub("ref-map", SubCfg::new(400, 12_000).max_len(600).max_shrink(50), |t, c| {
+    ck.sub("ref-map", SubCfg::new(240, 8_000).max_len(600).max_shrink(50), |t, c| {
         let server = gen_server(t, c);
         let set = t.below(SPEC_SETS.len());
         let filter = !t.chance(64);
@@ -979,7 +979,7 @@ fn main() {
     });
 
     // gix-protocol level: transport + handshake (+ ls-refs with chosen arguments and prefixes)
-    ck.sub("handshake-ls-refs", SubCfg::new(400, 12_000).max_len(600).max_shrink(50), |t, c| {
+    ck.sub("handshake-ls-refs", SubCfg::new(240, 8_000).max_len(600).max_shrink(50), |t, c| {
         let server = gen_server(t, c);
         let args = LsArgs {
             symrefs: !t.chance(40),
